@@ -1097,6 +1097,7 @@ pub fn main(args: &[String]) -> i32 {
     let mut sched_threads: Vec<Vec<Vec<String>>> = vec![];
     let mut tracing = false;
     let mut dls_on = false;
+    let mut rawfiles = false;
     let mut op_index = 0usize;
     let cut_op: Option<usize> = std::env::var("UVH_CUT_OP").ok().and_then(|x| x.parse().ok());
     use std::io::Write;
@@ -1143,6 +1144,11 @@ pub fn main(args: &[String]) -> i32 {
             "dls" => {
                 dls_on = toks[1] == "on";
             }
+            "rawfiles" => {
+                // after every call: the bytes of the two state files as they are on disk (for the canonical-form check of
+                // what the library writes against the model of its writer)
+                rawfiles = toks[1] == "on";
+            }
             "errnul" => {
                 ERRNUL.store(toks[1] == "on", std::sync::atomic::Ordering::SeqCst);
             }
@@ -1188,6 +1194,11 @@ pub fn main(args: &[String]) -> i32 {
                     writeln!(out, "{} dls={}", abs_line(&o, &w.storage, &net), abs_dls(&w.cache)).unwrap();
                 } else {
                     writeln!(out, "{}", abs_line(&o, &w.storage, &net)).unwrap();
+                }
+                if rawfiles {
+                    let _hfs = HarnessFs::new();
+                    let hxf = |p: std::path::PathBuf| std::fs::read(p).ok().map_or("-".to_string(), |b| if b.is_empty() { "e".to_string() } else { hex::encode(b) });
+                    writeln!(out, "raw:{}:{}", hxf(w.storage.join("patches_state.json")), hxf(w.storage.join("state.json"))).unwrap();
                 }
                 out.flush().unwrap();
             }
